@@ -260,6 +260,7 @@ def run(chk):
                           "the transport stays paused under a condition that does not involve the message queue: nothing a handler does re-evaluates it, and input that only the socket can complete (an incomplete request head) is never read - the connection hangs",
                           path_condition=norm.fmt_cnf(cl))
     chk.expect_count("C05.cap.stays", len(stays), 2, "stay-paused exits of _resume_msg_queue_reading()")
+    hunt2_rules(chk, repo)
     # ---- C05.wake ---------------------------------------------------------------------------------------------------
     sr = K.exprs(dr, "$W.set_result(None)")
     if not sr:
@@ -422,8 +423,64 @@ def url_validated(chk, repo, errs, rule):
             tries.add(ok)
             chk.ok(rule, call, "request target built inside `except ValueError -> HTTP error`")
     for t in tries:
+        if not any(isinstance(a, ast.Assign) and norm.raw(a.targets[0]) == "url" for s_ in t.body for a in ast.walk(s_)):
+            continue  # a validation-only construction (Host header): nothing is kept, nothing is read lazily later
         forced = any(isinstance(n, ast.Attribute) and n.attr in ("host", "port", "raw_host", "authority", "explicit_port") and norm.raw(n.value) == "url" for s in t.body for n in ast.walk(s))
         if forced:
             chk.ok(rule, t, "the lazily validated host/port split is forced inside the same try (BaseRequest.__init__ and handlers can read it safely)")
         else:
             chk.violation(rule, t, "try: url = URL(...)", "url.host inside the try", "yarl validates host/port lazily: an out-of-range or non-numeric port raises later, in the unprotected part of the request loop")
+
+
+def hunt2_rules(chk, repo):
+    """Rules written after the second defect hunt (F131-F134)."""
+    HW_ = "aiohttp/http_writer.py"
+    UD_ = "aiohttp/web_urldispatcher.py"
+    # ---- C05.once.writer: the error response does not inherit the framing a failed prepare() left on the request's writer ---------------------
+    n = 0
+    for q in (f"{RH}._handle_request", f"{RH}.handle_error"):
+        f = repo.func(PROTO, q)
+        builds = [c for c in prog.calls_in(f.node) if norm.raw(c.func) == "Response" and any(k.arg == "status" for k in c.keywords)]
+        fresh = [a for a in ast.walk(f.node) if isinstance(a, ast.Assign) and norm.raw(a.targets[0]) == "request._payload_writer" and isinstance(a.value, ast.Call) and norm.raw(a.value.func) == "StreamWriter"]
+        for b_ in builds:
+            # only the error responses built after the `nothing sent yet` test matter
+            if not any("output_size" in norm.raw(t.test) for t in ast.walk(f.node) if isinstance(t, ast.If) and t.lineno < b_.lineno):
+                continue
+            n += 1
+            if any(a.lineno < b_.lineno for a in fresh):
+                chk.ok("C05.once.writer", b_, f"{q.split('.')[-1]}(): the error response is written on a fresh StreamWriter")
+            else:
+                chk.violation("C05.once.writer", b_, K.short(b_, 60), "request._payload_writer = StreamWriter(self, self._loop) before the error response is built",
+                              f"{q.split('.')[-1]}() writes the error response on the request's writer because nothing was sent yet - but StreamResponse._prepare_headers() has already enabled chunking / compression / a length limit on that writer when prepare() failed (header-injection guard, on_response_prepare raising): the wire shows `500 ... Content-Length: 55` followed by a chunk-framed (or deflated) body, and on keep-alive the surplus framing bytes mis-frame the next response")
+    chk.expect_count("C05.once.writer", n, 2, "error responses built after the output_size test")
+    # ---- C05.once.head: one message head per writer ----------------------------------------------------------------------------------------------
+    wh = repo.func(HW_, "StreamWriter.write_headers")
+    rs = [r for r, _c in K.raises_in(wh) if PC.has_lit(PC.pc(r, raw=True), "self._headers_written", True) is not None]
+    if rs:
+        chk.ok("C05.once.head", rs[0], "StreamWriter.write_headers() refuses a second message head")
+    else:
+        chk.violation("C05.once.head", wh, "write_headers", "if self._headers_written: raise RuntimeError",
+                      "nothing stops a second status line on a writer that already carries one: an error middleware that returns json_response(500) after the streaming handler had prepared and written its response puts a second head inside the unfinished chunked body of the first, and the connection stays alive")
+    # ---- C05.once.sent: a response object that was already sent answers nothing ------------------------------------------------------------------
+    fr = repo.func(PROTO, f"{RH}.finish_response")
+    if any(isinstance(i, ast.If) and "_eof_sent" in norm.raw(i.test) for i in ast.walk(fr.node)):
+        chk.ok("C05.once.sent", fr, "finish_response() does not take an already sent response for an answer")
+    else:
+        chk.violation("C05.once.sent", fr, "await prepare_meth(request); await resp.write_eof()", "if resp._eof_sent and request.writer.output_size == 0: answer 500",
+                      "a handler that returns a cached, already sent Response: prepare() and write_eof() return early because _eof_sent is set, finish_response() reports success and the connection is kept alive - 0 bytes sent, request unanswered, no handler running until the keep-alive timeout")
+    # ---- C05.errtext: request text reaches an HTTPException text only escaped -----------------------------------------------------------------------
+    eh = repo.func(UD_, "_default_expect_handler")
+    for r, cname in K.raises_in(eh):
+        call = r.exc if isinstance(r.exc, ast.Call) else None
+        if call is None or not any(k.arg == "text" for k in call.keywords):
+            continue
+        txt = next(k.value for k in call.keywords if k.arg == "text")
+        names = {x.id for x in ast.walk(txt) if isinstance(x, ast.Name)}
+        defs = norm.fn_defs(eh.node).defs
+        raw_hdr = [nm for nm in names if any(v is not None and "headers" in norm.raw(v) for _d, v in defs.get(nm, []))]
+        escaped = all(any(v is not None and "backslashreplace" in norm.raw(v) for _d, v in defs.get(nm, [])) for nm in raw_hdr) or "%r" in norm.raw(txt) or "!r" in norm.raw(txt)
+        if not raw_hdr or escaped:
+            chk.ok("C05.errtext", r, f"{cname}: the echoed header value is escaped before it becomes response text")
+        else:
+            chk.violation("C05.errtext", r, K.short(r, 70), f"{raw_hdr[0]}.encode('ascii', 'backslashreplace').decode('ascii')",
+                          "the Expect header value is echoed verbatim into the 417 text: header bytes that are not UTF-8 arrive as lone surrogates, Response(text=...) raises UnicodeEncodeError while the error is being built and the connection is dropped without any response (`Expect: 100-continu\\xff`)")
